@@ -1669,9 +1669,18 @@ impl<'v> World<'v> {
                 res
             }
             OpK::Disconnect => {
-                self.log(|| "api: disconnect".to_string());
+                // rich families: also a DISCONNECT with a reason and properties (encoded in the arena tail)
+                let with_props = self.cfg.big_connect && self.decide_arg(2) == 1;
+                self.log(|| format!("api: disconnect{}", if with_props { " (with reason string and user property)" } else { "" }));
                 self.sh.borrow_mut().oracle.op_begin("disconnect", None);
-                match self.drive(conn.disconnect(), Some(id), true) {
+                let disc_props = [Property::ReasonString("closing for maintenance"), Property::UserProperty("k", "v")];
+                let r = if with_props {
+                    let d = minimq::Disconnect::with_reason(minimq::ReasonCode::DisconnectWithWill).with_properties(&disc_props);
+                    self.drive(conn.disconnect_with(d), Some(id), true)
+                } else {
+                    self.drive(conn.disconnect(), Some(id), true)
+                };
+                match r {
                     None => {
                         // only a DISCONNECT of which the transport has accepted something matters
                         let mut sh = self.sh.borrow_mut();
